@@ -29,6 +29,9 @@ def run(chk, tier):
     chk.rule("R-UNION", "the type-specific attribute union obj->attr is accessed only under a matching obj->type: every self-discriminating function is explored once per object type (21 values, product for two objects) by seeded constant propagation; guards are evaluated, not pattern-matched")
     nun, nuf = union.run(chk, P, units=None)
     chk.floor("R-UNION", "union accesses judged", nun, 150)
+    chk.rule("R-ARITY", "a function that keeps the arity counters in step with the child lists it splices does so for every splice (sibling agreement inside hwloc_filter_levels_keep_structure: 6 splices)")
+    nar = setkind.arity_pairing(chk, P, ["topology.c"])
+    chk.floor("R-ARITY", "splices in arity-maintaining functions", nar, 4)
     chk.rule("R-LINKFREE", "an object handed to an insertion function (which links, merges-and-frees or frees it) is never released afterwards by its creator: no feasible path from an insertion of x to hwloc_free_unlinked_object(x) (may-dataflow + correlated-condition path search)")
     nlf = linkfree.run(chk, P)
     chk.floor("R-LINKFREE", "release sites", nlf, 14)
